@@ -361,6 +361,30 @@ func (m *MsgClaim) ValidateBasic() (err error) {
 	return nil
 }
 
+func (m *MsgConfirm) ValidateBasic() (err error) {
+	if _, ok := externalAddressRouter[m.ChainName]; !ok {
+		return sdkerrors.ErrInvalidRequest.Wrap("unrecognized cross chain name")
+	}
+	if m.Confirm == nil {
+		return sdkerrors.ErrInvalidRequest.Wrap("empty confirm")
+	}
+	confirm, ok := m.Confirm.GetCachedValue().(Confirm)
+	if !ok {
+		return sdkerrors.ErrInvalidRequest.Wrapf("expected confirm type %T, got %T", new(Confirm), m.Confirm.GetCachedValue())
+	}
+	if vb, ok := confirm.(sdk.HasValidateBasic); ok {
+		if err = vb.ValidateBasic(); err != nil {
+			return err
+		}
+	}
+	// the transaction is signed by the wrapper's bridger address, the confirmation is
+	// stored for the oracle of the wrapped message's bridger address: they must be the same
+	if m.BridgerAddress != confirm.GetBridgerAddress() {
+		return sdkerrors.ErrInvalidAddress.Wrap("bridger address does not match the confirm's bridger address")
+	}
+	return nil
+}
+
 func (m *MsgClaim) GetSigners() []sdk.AccAddress {
 	claim, ok := m.Claim.GetCachedValue().(ExternalClaim)
 	if !ok {
